@@ -49,6 +49,9 @@
 
 #if (__cplusplus >= 201103L) || (defined __GXX_EXPERIMENTAL_CXX0X__) || (defined(HAS_CXX11_VARIADIC_TEMPLATES))
 #include <atomic>
+#ifdef FIX8_VERIF
+extern "C" void fix8_verif_point(int site, unsigned long val);
+#endif
 namespace ff {
 #define _INLINE static inline
 
@@ -81,6 +84,11 @@ typedef AtomicFlagWrapper lock_t[1];
 _INLINE void init_unlocked(lock_t l) { }
 _INLINE void init_locked(lock_t l)   { abort(); }
 _INLINE void spin_lock(lock_t l) {
+#ifdef FIX8_VERIF
+    // verification hook: a waiter yields to the external scheduler instead of spinning
+    while(l->test_and_set(std::memory_order_acquire)) fix8_verif_point(60, 0);
+    return;
+#endif
     while(l->test_and_set(std::memory_order_acquire)) ;
 }
 _INLINE void spin_unlock(lock_t l) { l->clear(std::memory_order_release);}
